@@ -30,6 +30,8 @@ func runC14(c *core.Ctx) {
 	c.Rule("R6", "the token→instance map shared between a ring and its subrings is immutable (shared with C13.R7)", 1)
 	c.Rule("R7", "no selection loop over tokens starts from the extreme value of the domain as 'nothing selected'", 1)
 	c.Rule("R8", "the partition lookup the ranges are measured against returns the id at the position whose active flag it tested (shared with C15.R6)", 2)
+	c.Rule("R9", "the instance lookup the ranges are measured against keeps its per-zone counters on separate storage (shared with C01.R7)", 1)
+	c.Rule("R10", "the token list and token→partition map of a PartitionRing are computed from the descriptor it stores (shared with C13.R5)", 1)
 	c.Rule("R2", "a pending range bound recorded with its flag is consumed on every path to a successful return", 2)
 	pkg := c.Prog.Pkg("ring")
 	if pkg == nil {
@@ -74,6 +76,8 @@ func runC14(c *core.Ctx) {
 	c13ImmutableIndex(c, pkg, "R6")
 	c14Extremum(c, pkg)
 	c15LookupAs(c, pkg, "R8", false)
+	c01CountersAs(c, pkg, "R9")
+	c13PartitionDerived(c, pkg, "R10")
 }
 
 // c14Extremum (R7): a selection loop over 32-bit tokens/keys must not use the largest (or smallest)
